@@ -19,6 +19,7 @@ spin chain strongly coupled to its environment*, arXiv:2201.05529 (2022).
 
 """
 
+from copy import copy, deepcopy
 from typing import Dict, List, Optional, Text, Union
 
 import numpy as np
@@ -182,7 +183,9 @@ class PtTebd(BaseAPIClass):
         assert isinstance(initial_augmented_mps, AugmentedMPS)
         self._initial_augmented_mps = initial_augmented_mps
         assert isinstance(system_chain, SystemChain)
-        self._system_chain = system_chain
+        # own copies: later changes of the caller's chain / parameters
+        # (add_* methods, setters) must not reach into this computation
+        self._system_chain = deepcopy(system_chain)
 
         assert isinstance(process_tensors, list)
         self._process_tensors = []
@@ -194,7 +197,7 @@ class PtTebd(BaseAPIClass):
                 self._process_tensors.append(process_tensor)
 
         assert isinstance(parameters, PtTebdParameters)
-        self._parameters = parameters
+        self._parameters = copy(parameters)
 
         if chain_control is None:
             self._chain_control = ChainControl(
